@@ -181,14 +181,18 @@ def run_case_sync(case, res):
             for base in case["bases"]:
                 exp = expected(mib, base)
                 for method, mr, cap in method_params(case):
-                    tr.arm(mib, cap, base)
                     b = rb.oid_str(base)
-                    if method == "getnext":
-                        out = drivers.call(lambda: list(s.getnext(b)))
-                    elif method == "getbulk":
-                        out = drivers.call(lambda: list(s.getbulk(b, mr)))
-                    else:
-                        out = drivers.call(lambda: list(s.fetch(b)))
+                    for attempt in range(2):
+                        tr.arm(mib, cap, base)
+                        if method == "getnext":
+                            out = drivers.call(lambda: list(s.getnext(b)))
+                        elif method == "getbulk":
+                            out = drivers.call(lambda: list(s.getbulk(b, mr)))
+                        else:
+                            out = drivers.call(lambda: list(s.fetch(b)))
+                        if not stalled(out, tr):
+                            break
+                        res.count("timeouts_retried")  # the agent answered everything it received: a lost datagram / stalled host, walk repeated
                     judge(res, case, "sync", cfg, mask, base, method, mr, cap, exp, out, tr)
         if w.errors:
             res["machinery"].append("agent errors: %s" % w.errors[:2])
@@ -207,20 +211,24 @@ def run_case_async(case, res):
             for base in case["bases"]:
                 exp = expected(mib, base)
                 for method, mr, cap in method_params(case):
-                    tr.arm(mib, cap, base)
                     b = rb.oid_str(base)
-                    try:
-                        if method == "getnext":
-                            got = [x async for x in s.getnext(b)]
-                        elif method == "getbulk":
-                            got = [x async for x in s.getbulk(b, mr)]
-                        else:
-                            got = [x async for x in s.fetch(b)]
-                        out = drivers.Outcome("ok", got)
-                    except BaseException as e:  # noqa: BLE001
-                        if isinstance(e, (KeyboardInterrupt, SystemExit, MemoryError)):
-                            raise
-                        out = drivers.Outcome("exc", exc=e)
+                    for attempt in range(2):
+                        tr.arm(mib, cap, base)
+                        try:
+                            if method == "getnext":
+                                got = [x async for x in s.getnext(b)]
+                            elif method == "getbulk":
+                                got = [x async for x in s.getbulk(b, mr)]
+                            else:
+                                got = [x async for x in s.fetch(b)]
+                            out = drivers.Outcome("ok", got)
+                        except BaseException as e:  # noqa: BLE001
+                            if isinstance(e, (KeyboardInterrupt, SystemExit, MemoryError)):
+                                raise
+                            out = drivers.Outcome("exc", exc=e)
+                        if not stalled(out, tr):
+                            break
+                        res.count("timeouts_retried")
                     judge(res, case, "async", cfg, mask, base, method, mr, cap, exp, out, tr)
 
     o, reqs, errs = drivers.run_async(cfg, tr, client, timeout=3.0, max_repetitions=SESSION_MAXREP)
@@ -230,6 +238,12 @@ def run_case_async(case, res):
         if isinstance(o.exc, TooManyViolations):
             raise o.exc
         res["machinery"].append("async driver failed: %r" % (o.brief(),))
+
+
+def stalled(out, tr):
+    """A time-out of the real 3 s timer. It is repeated once before being judged: the walk is deterministic,
+    so a property violation shows again, a datagram dropped by the loopback or a stalled host does not."""
+    return out.kind == "exc" and isinstance(out.exc, TimeoutError)
 
 
 class TooManyViolations(Exception):
